@@ -246,8 +246,10 @@ def set_union_merge_many(list arrays):
                 # All arrays have been exhausted.
                 break
 
-            result_view[result_len] = min_value
-            result_len += 1
+            # The same value may be at the head of several arrays.
+            if result_len == 0 or result_view[result_len - 1] != min_value:
+                result_view[result_len] = min_value
+                result_len += 1
 
             pointers[min_arrnum] += 1
 
